@@ -41,6 +41,7 @@ def run(rep):
     rep.run(witnesses)
     rep.run(ordering)
     rep.run(netfold)
+    rep.run(summary_wiring)
 
 
 def matrices(rep):
@@ -455,6 +456,9 @@ def witnesses(rep):
             except (ValueError, TypeError):
                 okb = True if norm(lo_) == "eps" else None
         rep.ob("O17.3", "SHAPE", cs, okb, alpha(bsrc, cs.node) if bsrc is not None else "bounds", "every flux component has a strictly positive lower bound (strict positivity)", node=c)
+        rep.ob("O17.3", "SHAPE", cs, (not hi) if hi is not None else None, alpha(bsrc, cs.node) if bsrc is not None else "bounds",
+               "no flux component is bounded above: positive steady fluxes form a cone, and `v >= 1` reaches every ray only if v may be scaled up freely "
+               "(a cap rejects networks whose positive flux needs a large ratio between reactions, e.g. a cascade 1:3:9:27:81:243)", node=c)
 
 
 def ordering(rep):
@@ -511,3 +515,28 @@ TWINS = [
 def netfold(rep):
     from ..rules import netfold as NF
     NF.check(rep, "O17.1", (ST, "synkit/CRN/Hypergraph/conversion.py", UT), "S, its rank, both kernels and every decision built on them are wrong")
+
+
+def summary_wiring(rep):
+    """StoichSummary.from_crn reports the verdicts of is_conservative / is_consistent themselves (and None when a check is switched off):
+    a shortcut that decides one of them from rank and shape re-implements the decision and can disagree with it"""
+    fi = rep.f(ST, "StoichSummary.from_crn")
+    crn = fi.params[1]
+    defs = local_defs(fi.node)
+    cons = [c for c in walk_local(fi.node) if isinstance(c, ast.Call) and isinstance(c.func, ast.Name) and c.func.id == "cls"]
+    rep.need("SHAPE", len(cons), 1, "cls(...) in StoichSummary.from_crn")
+    kws = {k.arg: k.value for k in cons[0].keywords}
+    for field, fn_name, flag in (("is_consistent", "is_consistent", "consistency_check"), ("is_conservative", "is_conservative", "conservativity_check")):
+        v = kws.get(field)
+        srcs = [d_.value for d_ in defs.get(v.id, []) if d_.value is not None] if isinstance(v, ast.Name) else ([v] if v is not None else [])
+        bad = []
+        for e in srcs:
+            okv = is_const(e, None) or pmatch(f"{fn_name}({crn})", e) is not None or pmatch(f"{fn_name}({crn}) if {flag} else None", e) is not None
+            if not okv:
+                bad.append(e)
+        rep.ob("O17.3", "SHAPE", fi, bool(srcs) and not bad, alpha(bad[0], fi.node) if bad else f"{field} <- {fn_name}(crn) | None",
+               f"the summary's `{field}` is the verdict of {fn_name}(crn) (or None when the check is off), never a value decided elsewhere", node=bad[0] if bad else cons[0])
+    rk = kws.get("rank")
+    rsrc = origin(defs, rk) if rk is not None else None
+    okr = rsrc is not None and any(isinstance(c, ast.Call) and call_name(c) == "matrix_rank" and norm(origin(defs, c.args[0])) == f"stoichiometric_matrix({crn})" for c in ast.walk(rsrc))
+    rep.ob("O17.1", "SHAPE", fi, okr, alpha(rsrc, fi.node) if rsrc is not None else "rank", "the summary's rank is matrix_rank of the network's stoichiometric matrix")
